@@ -148,7 +148,8 @@ func merge(
 		case hasNewValue && hasOldValue:
 			// merge and compress
 			encoder.AppendTime(bit.One)
-			encoder.AppendValue(math.Float64bits(fieldType.AggType().Aggregate(newValue, oldValue)))
+			// old value is written before new value(first/last field need keep the write order)
+			encoder.AppendValue(math.Float64bits(fieldType.AggType().Aggregate(oldValue, newValue)))
 		case !hasNewValue && hasOldValue:
 			// compress old value
 			encoder.AppendTime(bit.One)
